@@ -377,9 +377,12 @@ def split_equations_iter(model: str) -> Iterator[str]:
     """Return the equations of `model` as an iterator of strings."""
 
     def strip_comments(line: str) -> str:
+        # Strip trailing whitespace whether or not there is a comment: it is
+        # never part of a statement (and, left after closing backticks, stops
+        # verbatim code from being recognised as such)
         hash_position = line.find('#')
         if hash_position == -1:
-            return line
+            return line.rstrip()
 
         return line[:hash_position].rstrip()
 
